@@ -774,7 +774,7 @@ namespace Inst {
     kIdRcr,                              //!< Instruction 'rcr'.
     kIdRdfsbase,                         //!< Instruction 'rdfsbase' {FSGSBASE} (X64).
     kIdRdgsbase,                         //!< Instruction 'rdgsbase' {FSGSBASE} (X64).
-    kIdRdmsr,                            //!< Instruction 'rdmsr' {MSR|MSR_IMM}.
+    kIdRdmsr,                            //!< Instruction 'rdmsr' {MSR}.
     kIdRdpid,                            //!< Instruction 'rdpid' {RDPID}.
     kIdRdpkru,                           //!< Instruction 'rdpkru' {OSPKE}.
     kIdRdpmc,                            //!< Instruction 'rdpmc'.
